@@ -274,6 +274,78 @@ Proof.
   rewrite Hk, streq_refl in H. cbn [negb orb] in H. now apply streq_eq.
 Qed.
 
+(* ---------------------------------------------------------------- fields that can merge *)
+Lemma creach_incl s frags otn oimpls l l' g :
+  incl l l' -> ex_creach s frags otn oimpls l g -> ex_creach s frags otn oimpls l' g.
+Proof.
+  intros Hi H. destruct H as [l g Hin Hf|l cond dirs sub g Hin Hc Hs|l name dirs fr g Hin Hfind Ha Hs].
+  - apply cr_field; auto.
+  - eapply cr_inline; eauto.
+  - eapply cr_spread; eauto.
+Qed.
+
+Lemma collect_creach cx otn oimpls fuel sels v groups :
+  ex_collect fuel cx otn oimpls sels [] [] = Some (v, groups) ->
+  groups_all (ex_creach (ex_schema cx) (ex_frags cx) otn oimpls sels) groups.
+Proof.
+  intros Hc.
+  eapply (collect_inv cx otn oimpls
+            (fun x => forall g, ex_creach (ex_schema cx) (ex_frags cx) otn oimpls [x] g ->
+                                ex_creach (ex_schema cx) (ex_frags cx) otn oimpls sels g)
+            (ex_creach (ex_schema cx) (ex_frags cx) otn oimpls sels)); [| | |exact Hc| |constructor].
+  - intros x Hx Hf. apply Hx. apply cr_field; [now left|exact Hf].
+  - intros cond dirs sub Hx Hcond. apply Forall_forall. intros y Hy g Hg. apply Hx.
+    eapply cr_inline; [now left|exact Hcond|]. eapply creach_incl; [|exact Hg]. intros z [<-|[]]. exact Hy.
+  - intros name dirs fr Hx Hfind Ha. apply Forall_forall. intros y Hy g Hg. apply Hx.
+    eapply cr_spread; [now left|exact Hfind|exact Ha|]. eapply creach_incl; [|exact Hg]. intros z [<-|[]]. exact Hy.
+  - apply Forall_forall. intros x Hx g Hg. eapply creach_incl; [|exact Hg]. intros z [<-|[]]. exact Hx.
+Qed.
+
+Lemma mergeable_names s frags l otn oimpls g1 g2 :
+  ex_mergeable s frags l -> ex_get_object s otn = Some oimpls ->
+  ex_creach s frags otn oimpls l g1 -> ex_creach s frags otn oimpls l g2 -> rs_key g1 = rs_key g2 -> rs_name g1 = rs_name g2.
+Proof. intros H. inversion H as [? Hn _]; subst. apply Hn. Qed.
+
+Lemma mergeable_sub s frags l otn oimpls G :
+  ex_mergeable s frags l -> ex_get_object s otn = Some oimpls -> G <> [] ->
+  Forall (ex_creach s frags otn oimpls l) G -> (forall g1 g2, In g1 G -> In g2 G -> rs_key g1 = rs_key g2) ->
+  ex_mergeable s frags (flat_map rs_sels G).
+Proof. intros H. inversion H as [? _ Hs]; subst. apply Hs. Qed.
+
+(* the decidable sufficient condition *)
+Lemma creach_field_ok s d otn oimpls m l g :
+  Forall (sel_ok d m) l -> ex_creach s (rd_frags d) otn oimpls l g -> field_ok d m g.
+Proof.
+  intros Hl H. induction H as [l g Hin Hf|l cond dirs sub g Hin Hc Hs IH|l name dirs fr g Hin Hfind Ha Hs IH].
+  - rewrite Forall_forall in Hl. destruct (Hl g Hin) as [Hd Hdep]. now repeat split.
+  - apply IH. rewrite Forall_forall in Hl. destruct (Hl _ Hin) as [Hd Hdep]. apply Forall_forall. intros y Hy. split.
+    + eapply doc_node_sub; [exact Hd|exact Hy].
+    + inversion Hdep as [|? ? ? ? Hsub| |]; subst. rewrite Forall_forall in Hsub. now apply Hsub.
+  - apply IH. rewrite Forall_forall in Hl. destruct (Hl _ Hin) as [Hd Hdep]. apply Forall_forall. intros y Hy. split.
+    + apply find_frag_in in Hfind. destruct Hfind as [Hfin _]. eapply doc_node_frag; eassumption.
+    + inversion Hdep as [| |? ? ? Hnone|? ? ? ? Hsome Hsub]; subst; [congruence|].
+      rewrite Hfind in Hsome. injection Hsome as <-. rewrite Forall_forall in Hsub. now apply Hsub.
+Qed.
+
+Lemma alias_mergeable s d : rd_alias_consistent d = true ->
+  forall m l, Forall (sel_ok d m) l -> ex_mergeable s (rd_frags d) l.
+Proof.
+  intros Ha. induction m as [|m IH]; intros l Hl; constructor.
+  - intros otn oimpls g1 g2 _ H1 H2 Hk.
+    destruct (creach_field_ok s d _ _ _ _ _ Hl H1) as (F1 & D1 & _). destruct (creach_field_ok s d _ _ _ _ _ Hl H2) as (F2 & D2 & _).
+    now apply (alias_consistent_nodes d).
+  - intros otn oimpls G _ Hne HG _. exfalso. destruct G as [|g G]; [now apply Hne|].
+    inversion HG as [|? ? Hg _]; subst. destruct (creach_field_ok s d _ _ _ _ _ Hl Hg) as (Fg & _ & Hdep).
+    destruct g; try discriminate. inversion Hdep.
+  - intros otn oimpls g1 g2 _ H1 H2 Hk.
+    destruct (creach_field_ok s d _ _ _ _ _ Hl H1) as (F1 & D1 & _). destruct (creach_field_ok s d _ _ _ _ _ Hl H2) as (F2 & D2 & _).
+    now apply (alias_consistent_nodes d).
+  - intros otn oimpls G _ _ HG _. apply IH.
+    assert (Hok : Forall (field_ok d (S m)) G).
+    { eapply Forall_impl; [|exact HG]. intros g Hg. eapply creach_field_ok; eassumption. }
+    destruct (sub_sels_ok d G m Hok) as [_ H]. exact H.
+Qed.
+
 (* ---------------------------------------------------------------- the invariant of execution *)
 Section Exec.
 Variables (s : schema) (d : rdoc) (vars : jmap).
@@ -281,7 +353,6 @@ Let cx := ex_cx_for s d vars.
 Hypothesis Hu : sch_names_unique s.
 Hypothesis Hm : sch_no_meta_fields s.
 Hypothesis Hcov : known_covariant s d = false.
-Hypothesis Halias : rd_alias_consistent d = true.
 Hypothesis Hfr : frags_typed s (rd_frags d).
 
 Definition tsel_ok (otn : str) (oimpls : list str) (x : rsel) : Prop :=
@@ -305,17 +376,15 @@ Proof.
 Qed.
 
 (* the fields of one group, on an object type that has the field: one name, one type *)
-Lemma group_types otn oimpls key f0 rest fdef :
+Lemma group_types otn oimpls f0 rest fdef :
   ex_get_object s otn = Some oimpls ->
-  Forall (tfield_ok otn oimpls) (f0 :: rest) -> Forall (fun g => rs_key g = key) (f0 :: rest) ->
+  Forall (tfield_ok otn oimpls) (f0 :: rest) -> Forall (fun g => rs_name g = rs_name f0) (f0 :: rest) ->
   td_type_field s otn (rs_name f0) = Some fdef ->
   Forall (fun g => rs_dty g = fd_ty fdef) (f0 :: rest).
 Proof.
-  intros Hg Hok Hkey Ht. inversion Hok as [|? ? H0 _]; subst. inversion Hkey as [|? ? K0 _]; subst.
-  destruct H0 as (F0 & D0 & _).
-  apply Forall_forall. intros g Hin. rewrite Forall_forall in Hok, Hkey.
-  destruct (Hok g Hin) as (Fg & Dg & C & Tg & Ag). pose proof (Hkey g Hin) as Kg.
-  assert (Hn : rs_name g = rs_name f0) by (apply (alias_consistent_nodes d); auto; congruence).
+  intros Hg Hok Hnames Ht.
+  apply Forall_forall. intros g Hin. rewrite Forall_forall in Hok, Hnames.
+  destruct (Hok g Hin) as (Fg & Dg & C & Tg & Ag). pose proof (Hnames g Hin) as Hn.
   destruct g as [a n args dirs t sub|n dirs|c dirs sub]; try discriminate. cbn [rs_dty rs_name] in *.
   apply rs_typed_field in Tg. destruct Tg as [(dC & HdC & ->) _].
   eapply field_type_stable; try eassumption.
